@@ -54,7 +54,9 @@ func mk(op byte, fin bool, payload []byte, side Side, idx int) Frame {
 	f := Frame{H: refmodel.Hdr{Fin: fin, Op: op}, Payload: payload}
 	if side == Server {
 		f.H.Masked = true
-		f.H.Mask = Masks[idx%len(Masks)]
+		// frames 0,1 share a key, frames 1,2 differ, frames 2,3 share the next one, ...: both a
+		// key that stays and a key that changes between consecutive frames occur in every stream
+		f.H.Mask = Masks[(idx/2)%len(Masks)]
 	}
 	f.H.Len = uint64(len(payload))
 	return f
